@@ -202,6 +202,33 @@ m("c20_b64_padding", "C20", r"C20\.B64:decode:padding-indifferent:base64::STANDA
         .with_decode_padding_mode(base64::engine::DecodePaddingMode::Indifferent),""", """    &base64::alphabet::STANDARD,
     general_purpose::GeneralPurposeConfig::new()
         .with_decode_padding_mode(base64::engine::DecodePaddingMode::RequireCanonical),""")
+# ---------------------------------------------------------------- C02
+m("c02_prec_concat", "C02", r"C02\.PREC:doc-row\d+:same-power", "`~` given the precedence of + -",
+  "tera/src/parsing/parser.rs", """        Plus | Minus => (11, 12),
+        Mul | Div | Mod | StrConcat | FloorDiv => (13, 14),""", """        Plus | Minus | StrConcat => (11, 12),
+        Mul | Div | Mod | FloorDiv => (13, 14),""")
+m("c02_cut_le", "C02", r"C02\.CUT:test", "cut-off test made non-strict (flips associativity)",
+  "tera/src/parsing/parser.rs", """            let (l_bp, r_bp) = binary_binding_power(op);
+            if l_bp < min_bp {""", """            let (l_bp, r_bp) = binary_binding_power(op);
+            if l_bp <= min_bp {""")
+m("c02_assoc_power", "C02", r"C02\.PREC:(order|intervals|assoc)", "`**` made to overlap the filter pipe",
+  "tera/src/parsing/parser.rs", "        Power => (16, 15),", "        Power => (18, 17),")
+m("c02_sc_swapped", "C02", r"C02\.SC:and=>JumpIfFalseOrPop", "and/or jump variants swapped",
+  "tera/src/parsing/compiler.rs", """                                if op.op == BinaryOperator::And {
+                                    Instruction::JumpIfFalseOrPop(0)
+                                } else {
+                                    Instruction::JumpIfTrueOrPop(0)
+                                },""", """                                if op.op == BinaryOperator::Or {
+                                    Instruction::JumpIfFalseOrPop(0)
+                                } else {
+                                    Instruction::JumpIfTrueOrPop(0)
+                                },""")
+m("c02_sc_vm", "C02", r"C02\.SC:vm:JumpIfTrueOrPop", "VM arm of JumpIfTrueOrPop jumps on falsy",
+  "tera/src/vm/interpreter.rs", """                Instruction::JumpIfTrueOrPop(target_ip) => {
+                    let (peeked, _) = state.stack.peek();
+                    if peeked.is_truthy() {""", """                Instruction::JumpIfTrueOrPop(target_ip) => {
+                    let (peeked, _) = state.stack.peek();
+                    if !peeked.is_truthy() {""")
 
 
 def apply(src, old, new, count, name):
